@@ -214,7 +214,7 @@ def _run_property(pid, tier, seed, logdir):
                            "logging disabled, prometheus counters no-ops", "derived Clone = structural copy"] + sorted(ex.used_summaries),
                     tier=tier, **_vr(failed, ex), queries=ex.queries, solver_time_s=round(ex.solver_time, 2),
                     failed=_dedup(failed), paths=npaths, path_kinds=kinds, wall_s=round(time.time() - t0, 1)))
-            except (Unsupported, Unwind) as e:
+            except Exception as e:  # noqa: anything the executor cannot handle is undecided, never a verdict
                 obligations.append(dict(name=name, engine="mirsym", functions=[], bounds="", oracle="", stubs=[], tier=tier,
                                         verdict="inconclusive", reason=f"outside the encoder's subset: {e}", queries=0, solver_time_s=0, failed=[]))
         # the async wrapper (lifted): key construction, class gate, insert condition
@@ -230,7 +230,7 @@ def _run_property(pid, tier, seed, logdir):
                                     stubs=["async body lifted verbatim (lib/lift.py)", "get_entry / calculate_expiry / insert_cache_entry / next handler / locks = summaries (decided separately by c06_cache_lookup_*)"] + sorted(ex.used_summaries),
                                     tier=tier, **_vr(failed, ex), queries=ex.queries, solver_time_s=round(ex.solver_time, 2),
                                     failed=_dedup(failed), paths=npaths, path_kinds=kinds, wall_s=round(time.time() - t0, 1)))
-        except (Unsupported, Unwind) as e:
+        except Exception as e:  # noqa: anything the executor cannot handle is undecided, never a verdict
             obligations.append(dict(name="c06_cache_wrapper_key_and_gate", engine="mirsym", functions=[], bounds="", oracle="", stubs=[], tier=tier,
                                     verdict="inconclusive", reason=f"outside the encoder's subset: {e}", queries=0, solver_time_s=0, failed=[]))
         return obligations
@@ -252,7 +252,7 @@ def _run_property(pid, tier, seed, logdir):
                     return dict(name=name, engine="mirsym", functions=sorted(f.split("::")[-1] for f in ex.encoded_fns), bounds=bounds, oracle=oracle, stubs=kstubs + sorted(ex.used_summaries),
                                 tier=tier, **_vr(failed, ex), queries=ex.queries, solver_time_s=round(ex.solver_time, 2), failed=_dedup(failed), paths=npaths,
                                 path_kinds={str(k): v for k, v in kinds.items()}, wall_s=round(time.time() - t0, 1))
-                except (Unsupported, Unwind) as e:
+                except Exception as e:  # noqa: anything the executor cannot handle is undecided, never a verdict
                     return dict(name=name, engine="mirsym", functions=[], bounds=bounds, oracle=oracle, stubs=kstubs, tier=tier, verdict="inconclusive",
                                 reason=f"outside the encoder's subset: {e}", queries=0, solver_time_s=0, failed=[])
             return (name, job)
@@ -290,7 +290,7 @@ def _run_property(pid, tier, seed, logdir):
                                        "HashMap::entry(..).or_default() = get-or-insert on that map"] + sorted(ex.used_summaries),
                                 tier=tier, **_vr(failed, ex), queries=ex.queries, solver_time_s=round(ex.solver_time, 2), failed=_dedup(failed), paths=npaths,
                                 path_kinds={str(k): v for k, v in kinds.items()}, wall_s=round(time.time() - t0, 1))
-                except (Unsupported, Unwind) as e:
+                except Exception as e:  # noqa: anything the executor cannot handle is undecided, never a verdict
                     return dict(name=name, engine="mirsym", functions=[], bounds=bounds, oracle=oracle, stubs=[], tier=tier, verdict="inconclusive",
                                 reason=f"outside the encoder's subset: {e}", queries=0, solver_time_s=0, failed=[])
             jobs.append(("c12_message_roundtrip_" + sh.name, job))
@@ -318,7 +318,7 @@ def _run_property(pid, tier, seed, logdir):
                                        "domain and URL strings concrete (str::split, len, as_bytes on concrete text)"] + sorted(ex.used_summaries),
                                 tier=tier, **_vr(failed, ex), queries=ex.queries, solver_time_s=round(ex.solver_time, 2), failed=_dedup(failed), paths=npaths,
                                 path_kinds={str(k): v for k, v in kinds.items()}, wall_s=round(time.time() - t0, 1))
-                except (Unsupported, Unwind) as e:
+                except Exception as e:  # noqa: anything the executor cannot handle is undecided, never a verdict
                     return dict(name=name, engine="mirsym", functions=[], bounds=bounds, oracle=oracle, stubs=[], tier=tier, verdict="inconclusive",
                                 reason=f"outside the encoder's subset: {e}", queries=0, solver_time_s=0, failed=[])
             jobs.append(("c17_ra_" + sh.name, job))
@@ -342,7 +342,7 @@ def _run_property(pid, tier, seed, logdir):
                     return dict(name=name, engine="mirsym", functions=sorted(f.split("::")[-1] for f in ex.encoded_fns), bounds=bounds, oracle=oracle,
                                 stubs=cstubs + sorted(ex.used_summaries), tier=tier, **_vr(failed, ex), queries=ex.queries, solver_time_s=round(ex.solver_time, 2),
                                 failed=_dedup(failed), paths=npaths, path_kinds={str(k): v for k, v in kinds.items()}, wall_s=round(time.time() - t0, 1))
-                except (Unsupported, Unwind) as e:
+                except Exception as e:  # noqa: anything the executor cannot handle is undecided, never a verdict
                     return dict(name=name, engine="mirsym", functions=[], bounds=bounds, oracle=oracle, stubs=cstubs, tier=tier, verdict="inconclusive",
                                 reason=f"outside the encoder's subset: {e}", queries=0, solver_time_s=0, failed=[])
             return (name, job)
@@ -411,7 +411,7 @@ def _run_property(pid, tier, seed, logdir):
                                        "parameter request list = concrete list of codes", "logging disabled"] + sorted(ex.used_summaries),
                                 tier=tier, **_vr(failed, ex), queries=ex.queries, solver_time_s=round(ex.solver_time, 2), failed=_dedup(failed),
                                 paths=npaths, path_kinds=kinds, wall_s=round(time.time() - t0, 1))
-                except (Unsupported, Unwind) as e:
+                except Exception as e:  # noqa: anything the executor cannot handle is undecided, never a verdict
                     return dict(name=oname, engine="mirsym", functions=[], bounds=bounds, oracle=oracle, stubs=[], tier=tier, verdict="inconclusive",
                                 reason=f"outside the encoder's subset: {e}", queries=0, solver_time_s=0, failed=[])
             jobs.append(("c11_policy_" + name, job))
@@ -435,7 +435,7 @@ def _run_property(pid, tier, seed, logdir):
                                 stubs=codec_stubs + sorted(ex.used_summaries), tier=tier, **_vr(failed, ex), queries=ex.queries,
                                 solver_time_s=round(ex.solver_time, 2), failed=_dedup(failed), paths=npaths, path_kinds={str(k): v for k, v in kinds.items()},
                                 wall_s=round(time.time() - t0, 1))
-                except (Unsupported, Unwind) as e:
+                except Exception as e:  # noqa: anything the executor cannot handle is undecided, never a verdict
                     return dict(name=name, engine="mirsym", functions=[], bounds=bounds, oracle=oracle, stubs=codec_stubs, tier=tier, verdict="inconclusive",
                                 reason=f"outside the encoder's subset: {e}", queries=0, solver_time_s=0, failed=[])
             return (name, job)
@@ -579,7 +579,7 @@ def _run_property(pid, tier, seed, logdir):
                                         stubs=lift_stub + sorted(ex.used_summaries), tier=tier, **_vr(failed, ex),
                                         queries=ex.queries, solver_time_s=round(ex.solver_time, 2), failed=_dedup(failed), paths=npaths, path_kinds=kinds,
                                         wall_s=round(time.time() - t0, 1)))
-            except (Unsupported, Unwind) as e:
+            except Exception as e:  # noqa: anything the executor cannot handle is undecided, never a verdict
                 obligations.append(dict(name=name, engine="mirsym", functions=[], bounds=bounds, oracle=oracle, stubs=lift_stub, tier=tier,
                                         verdict="inconclusive", reason=f"outside the encoder's subset: {e}", queries=0, solver_time_s=0, failed=[]))
         return obligations
@@ -610,7 +610,7 @@ def _run_property(pid, tier, seed, logdir):
                     stubs=common_stubs + sorted(ex.used_summaries), tier=tier, **_vr(failed, ex),
                     queries=ex.queries, solver_time_s=round(ex.solver_time, 2), failed=_dedup(failed), paths=len(results),
                     wall_s=round(time.time() - t0, 1), sql=sorted(set(s for r in results for s in r[2].get("sql", [])))))
-            except (Unsupported, Unwind) as e:
+            except Exception as e:  # noqa: anything the executor cannot handle is undecided, never a verdict
                 obligations.append(dict(name=name, engine="mirsym", functions=[], bounds="", oracle="", stubs=common_stubs, tier=tier,
                                         verdict="inconclusive", reason=f"outside the encoder's subset: {e}", queries=0, solver_time_s=0, failed=[]))
         from mirsym import props_json
@@ -631,7 +631,7 @@ def _run_property(pid, tier, seed, logdir):
                                        "format! not modelled: a fragment built with it is undecided"] + sorted(ex.used_summaries),
                                 tier=tier, **_vr(failed, ex), queries=ex.queries, solver_time_s=round(ex.solver_time, 2), failed=_dedup(failed), paths=npaths,
                                 path_kinds={str(k): v for k, v in kinds.items()}, wall_s=round(time.time() - t0, 1))
-                except (Unsupported, Unwind) as e:
+                except Exception as e:  # noqa: anything the executor cannot handle is undecided, never a verdict
                     return dict(name=name, engine="mirsym", functions=[], bounds=bounds, oracle=oracle, stubs=[], tier=tier, verdict="inconclusive",
                                 reason=f"outside the encoder's subset: {e}", queries=0, solver_time_s=0, failed=[])
             jobs.append(("c20_listing_hostname_%d_chars" % nch, job))
@@ -650,7 +650,7 @@ def _run_property(pid, tier, seed, logdir):
                                 stubs=common_stubs + ["prepare_cached / query_map = the plain SELECT found at the call site evaluated over the symbolic table (rows in table order); Row::get typed as rusqlite: NULL is not a BLOB, NULL is None for Option"] + sorted(ex.used_summaries),
                                 tier=tier, **_vr(failed, ex), queries=ex.queries, solver_time_s=round(ex.solver_time, 2), failed=_dedup(failed), paths=npaths,
                                 path_kinds={str(k): v for k, v in kinds.items()}, wall_s=round(time.time() - t0, 1))
-                except (Unsupported, Unwind) as e:
+                except Exception as e:  # noqa: anything the executor cannot handle is undecided, never a verdict
                     return dict(name=name, engine="mirsym", functions=[], bounds=bounds, oracle=oracle, stubs=[], tier=tier, verdict="inconclusive",
                                 reason=f"outside the encoder's subset: {e}", queries=0, solver_time_s=0, failed=[])
             jobs.append(("c20_listing_entries_table_of_%d_rows_or_fewer" % nrows, ljob))
@@ -704,7 +704,7 @@ def _run_property(pid, tier, seed, logdir):
                 oracle=ORACLE[pid], stubs=common_stubs + sorted(ex.used_summaries), tier=tier, **_vr(failed, ex),
                 queries=ex.queries, solver_time_s=round(ex.solver_time, 2), failed=_dedup(failed), paths=len(paths), path_kinds=sigs,
                 claims_checked=nclaims, wall_s=round(time.time() - t0, 1), sql=sorted(set(s for p in paths for s in p[3].get("sql", [])))[:8])
-        except (Unsupported, Unwind) as e:
+        except Exception as e:  # noqa: anything the executor cannot handle is undecided, never a verdict
             return dict(name=name, engine="mirsym", functions=[], bounds="", oracle="", stubs=common_stubs, tier=tier, verdict="inconclusive",
                         reason=f"outside the encoder's subset: {e}", queries=ex.queries, solver_time_s=round(ex.solver_time, 2), failed=[])
     jobs = []
@@ -749,7 +749,7 @@ def _run_property(pid, tier, seed, logdir):
                                       "request option re-serialisation (raw options blob) = no-op", "response option table = map with concrete option codes"] + sorted(ex.used_summaries),
                 tier=tier, **_vr(failed, ex), queries=ex.queries, solver_time_s=round(ex.solver_time, 2), failed=_dedup(failed),
                 paths=npaths, path_kinds=kinds, wall_s=round(time.time() - t0, 1))
-        except (Unsupported, Unwind) as e:
+        except Exception as e:  # noqa: anything the executor cannot handle is undecided, never a verdict
             return dict(name=name, engine="mirsym", functions=[], bounds="", oracle="", stubs=common_stubs, tier=tier, verdict="inconclusive",
                         reason=f"outside the encoder's subset: {e}", queries=0, solver_time_s=0, failed=[])
     if pid == "C02":
@@ -768,7 +768,7 @@ def _run_property(pid, tier, seed, logdir):
                                    "Mutex<RefCell<_>> (address cache) = plain cell (single thread)"] + sorted(ex.used_summaries),
                             tier=tier, **_vr(failed, ex), queries=ex.queries, solver_time_s=round(ex.solver_time, 2), failed=_dedup(failed),
                             paths=npaths, path_kinds=kinds, wall_s=round(time.time() - t0, 1))
-            except (Unsupported, Unwind) as e:
+            except Exception as e:  # noqa: anything the executor cannot handle is undecided, never a verdict
                 return dict(name=name, engine="mirsym", functions=[], bounds=bounds, oracle=oracle, stubs=[], tier=tier, verdict="inconclusive",
                             reason=f"outside the encoder's subset: {e}", queries=0, solver_time_s=0, failed=[])
         D = ("D = { ip | network < ip < broadcast, ip != receiving address, ip not in the union of the address sets of configured policies } "
